@@ -53,6 +53,15 @@ type vStoreSys struct {
 	nFault   int               // flushes with an injected file-system fault (c09 mode, at most one per history)
 	segNames map[string]string // every segment file ever created -> content hash when completed
 	logSeen  int
+	// an operation other than an explicit eviction dropped the cached index of a segment
+	// that still exists (the known shared-template finding is witnessed by decodes that the
+	// history explains: first load after a flush / compaction / reopen, explicit eviction)
+	unexplainedDrop string
+	narrow          bool // deep-narrow shards: AddWithID / Flush / Search / Idle / Evict only
+	// canonical state right after the operation, BEFORE the end-of-history observation: the
+	// observation searches load and cache segments, i.e. they change the store, and the
+	// next BFS level re-creates the state by replaying the operations without them
+	preObsKey string
 }
 
 func (s *vStoreSys) Reset() {
@@ -73,6 +82,8 @@ func (s *vStoreSys) Reset() {
 	s.nFault = 0
 	s.segNames = map[string]string{}
 	s.logSeen = 0
+	s.unexplainedDrop = ""
+	s.preObsKey = ""
 	var err error
 	s.st, err = s.env.open(s.cfg.config())
 	if err != nil || s.env.dead != "" {
@@ -99,6 +110,13 @@ func (s *vStoreSys) Enabled() []vOp {
 			ops = append(ops, vOp{K: "Add", B: 1})
 		}
 	}
+	if s.narrow {
+		ops = append(ops, vOp{K: "Flush"}, vOp{K: "Search", B: 0}, vOp{K: "Evict"})
+		if len(s.st.segmentManager.segments) >= 1 {
+			ops = append(ops, vOp{K: "Idle"})
+		}
+		return ops
+	}
 	if s.mode == "c08" {
 		ids := []int{}
 		for id := range s.live {
@@ -119,7 +137,9 @@ func (s *vStoreSys) Enabled() []vOp {
 		}
 		ops = append(ops, vOp{K: "Flush"}, vOp{K: "Rotate"}, vOp{K: "Drain"}, vOp{K: "Compact"}, vOp{K: "Evict"}, vOp{K: "Search", B: 0})
 		if len(s.st.segmentManager.segments) >= 1 {
-			ops = append(ops, vOp{K: "Tick"})
+			// Tick: the background tickers fire; Idle: a long time passes (the clock moves on
+			// by 1000 hours), then they fire
+			ops = append(ops, vOp{K: "Tick"}, vOp{K: "Idle"})
 		}
 	} else {
 		ops = append(ops, vOp{K: "Flush"}, vOp{K: "Search", B: 0})
@@ -253,13 +273,32 @@ func vC09DirNames(c *vCtx) {
 func (s *vStoreSys) decodes() int { return vSegmentDecodes(s.env.fs) }
 
 func (s *vStoreSys) Apply(op vOp, hist []vOp, check bool) {
+	s.preObsKey = ""
 	if s.env.dead != "" {
 		return
 	}
 	h := func() []string { return vHistStrings(append(hist, op)) }
 	segsBefore := 0
+	cachedBefore := map[uint64]bool{}
+	stBefore := s.st
 	if s.st != nil {
 		segsBefore = len(s.st.segmentManager.segments)
+		for _, seg := range s.st.segmentManager.segments {
+			cachedBefore[seg.id] = seg.cachedIndex != nil
+		}
+	}
+	noteDrops := func() {
+		if s.st == nil || s.st != stBefore || op.K == "Evict" {
+			return
+		}
+		for _, seg := range s.st.segmentManager.segments {
+			if cachedBefore[seg.id] && seg.cachedIndex == nil && s.unexplainedDrop == "" {
+				s.unexplainedDrop = op.K
+			}
+		}
+	}
+	if op.K == "Search" {
+		defer noteDrops() // the search of a checked step runs inside the switch
 	}
 	switch op.K {
 	case "AddWithID", "Add":
@@ -345,6 +384,9 @@ func (s *vStoreSys) Apply(op vOp, hist []vOp, check bool) {
 	case "Tick":
 		s.nBg++
 		s.env.do(func() { vtime.FireAll(); vrt.Quiesce() })
+	case "Idle":
+		s.nBg++
+		s.env.do(func() { vtime.Advance(1000 * vtime.Hour); vtime.FireAll(); vrt.Quiesce() })
 	case "Evict":
 		s.env.do(func() { s.st.segmentManager.EvictAllCaches() })
 	case "Search":
@@ -399,6 +441,9 @@ func (s *vStoreSys) Apply(op vOp, hist []vOp, check bool) {
 			}
 		}
 	}
+	if op.K != "Search" {
+		noteDrops()
+	}
 	if s.st != nil && len(s.st.segmentManager.segments) < segsBefore {
 		s.compacts++
 	}
@@ -409,6 +454,7 @@ func (s *vStoreSys) Apply(op vOp, hist []vOp, check bool) {
 		return
 	}
 	if check {
+		s.preObsKey = s.keyNow()
 		s.checkSegmentFiles(h())
 		if s.st != nil && (op.K != "Search") {
 			// end-of-history observation = full Q (on a state that the next BFS level re-creates)
@@ -491,6 +537,9 @@ func (s *vStoreSys) search(h []string, q int) {
 			if s.compacts > d.compactAt {
 				cause += "+compaction-ran"
 			}
+			if s.unexplainedDrop != "" {
+				cause += "+cached-segment-dropped-by:" + s.unexplainedDrop
+			}
 			class := "missing-acknowledged-doc"
 			if s.mode == "c09" {
 				class = "durable-doc-lost"
@@ -529,6 +578,13 @@ func (s *vStoreSys) search(h []string, q int) {
 }
 
 func (s *vStoreSys) Key() string {
+	if s.preObsKey != "" {
+		return s.preObsKey
+	}
+	return s.keyNow()
+}
+
+func (s *vStoreSys) keyNow() string {
 	var sb strings.Builder
 	if s.st != nil {
 		vrt.Quiet(func() { sb.WriteString(vCanonStore(s.st, s.env.fs)) })
@@ -593,6 +649,21 @@ func vStoreShards(mode, tier string) []vShard {
 		depth++
 		if mode == "c09" {
 			depth, maxAdd, maxSess = 9, 4, 4
+		}
+	}
+	if mode == "c08" {
+		// deep-narrow: few operations (add, flush, search, explicit eviction, a long idle
+		// period followed by the tickers), longer histories
+		for _, cfg := range []vStoreCfg{{Mem: 2, Thr: 0, Comp: 3, Tmpl: "vtm", Vec: "flat"}, {Mem: 0, Thr: 1, Comp: 2, Tmpl: "v", Vec: "flat"}} {
+			cfg := cfg
+			nd := depth + 3
+			sh = append(sh, vShard{Name: mode + "/narrow/" + strings.ReplaceAll(cfg.String(), " ", ","), Run: func(c *vCtx) {
+				s := &vStoreSys{c: c, cfg: cfg, cfgS: mode + " narrow " + cfg.String(), mode: mode, maxAdd: 2, maxSess: 1, narrow: true}
+				vBFS(c, s, nd)
+				if s.env != nil {
+					s.env.end()
+				}
+			}})
 		}
 	}
 	for _, cfg := range cfgs {
@@ -714,8 +785,9 @@ func vStoreReplay(c *vCtx, v *vViolation) bool {
 		defer func() { vStoreDir = old }()
 	}
 	mode := v.Config[:3]
-	cfg := vParseStoreCfg(v.Config[4:])
-	s := &vStoreSys{c: c, cfg: cfg, cfgS: v.Config, mode: mode, maxAdd: 4, maxSess: 4}
+	narrow := strings.HasPrefix(v.Config[3:], " narrow ")
+	cfg := vParseStoreCfg(strings.TrimPrefix(v.Config[4:], "narrow "))
+	s := &vStoreSys{c: c, cfg: cfg, cfgS: v.Config, mode: mode, maxAdd: 4, maxSess: 4, narrow: narrow}
 	vReplayHist(s, v.History)
 	if s.env != nil {
 		s.env.end()
